@@ -161,6 +161,7 @@ def one_case(rng, res):
     try:
         ch, desc = gen_case(rng, root)
         scn = scen.build(ch, root, rng)
+        scn.params = vcommon.pick_params(rng, desc)
         i, m, _ = vcommon.run_case(scn, desc, res, desc["n_sublayouts"] > 0)
         res.count("defect_%s" % desc["defect"]); res.count("depth_%d" % desc["depth"])
         if vcommon.accepted(i):
